@@ -122,6 +122,10 @@ Inductive stmt :=
 | SError (allowed : bool) (gs gr : N) (code arg : option expr)
     (* error [code [response]];  allowed: scope RECV/HIT/MISS/PASS/FETCH; gs / gr: the ctx cells
        ctx.ObjectStatus / ctx.ObjectResponse it assigns *)
+| SUnsetWild (o : N) (pre : str)
+    (* unset <obj>.http.<pre>*;  every header of the object whose name starts with pre, ASCII case folded *)
+| SSynthetic (gb : N) (e : expr)
+    (* synthetic e;  gb: the ctx cell of the response body (ctx.Object.Body) it assigns *)
 | SSwitch (c : expr) (cases : list (ctest * list stmt * bool)) (dflt : option nat)
 with ctest :=
 | CDefault
@@ -190,6 +194,21 @@ Fixpoint hget (k : N * N) (l : list ((N * N) * str)) : option str :=
 Fixpoint hdel (k : N * N) (l : list ((N * N) * str)) : list ((N * N) * str) :=
   match l with [] => [] | (k', v) :: r => if key_eqb k k' then hdel k r else (k', v) :: hdel k r end.
 Definition hset (k : N * N) (v : str) (l : list ((N * N) * str)) := (k, v) :: hdel k l.
+
+(* header h of the generated programs is called "h" followed by the letter number h ("ha", "hb", ...) *)
+Definition hdr_name (h : N) : str := [Byte.x68; n2b (97 + h mod 26)%N].
+Definition fold_byte (b : byte) : byte :=
+  let n := b2n b in if ((65 <=? n) && (n <=? 90))%N then n2b (n + 32)%N else b.
+Fixpoint prefix_ci (p s : str) : bool :=
+  match p, s with
+  | [], _ => true
+  | x :: p', y :: s' => if byte_eqb (fold_byte x) (fold_byte y) then prefix_ci p' s' else false
+  | _ :: _, [] => false
+  end.
+(* does `unset <obj o>.http.<pre>*` name header (o', h)? *)
+Definition wild_hit (o : N) (pre : str) (k : N * N) : bool := (fst k =? o)%N && prefix_ci pre (hdr_name (snd k)).
+Definition hdel_wild (o : N) (pre : str) (l : list ((N * N) * str)) : list ((N * N) * str) :=
+  filter (fun e => negb (wild_hit o pre (fst e))) l.
 
 Fixpoint upd {A} (i : nat) (x : A) (l : list A) : list A :=
   match l, i with
